@@ -165,8 +165,16 @@ def parse_rules(ck, pr, ct):
         ck.require(len(rule_assigns.get(fld, [])) == 1, "Rule::%s is assigned %d times in parseRules" % (fld, len(rule_assigns.get(fld, []))))
     cat_asg, cat_rhs = rule_assigns["category"][0]
     rx = skip_copies(cat_rhs)
-    while rx.get("k") == "cast":
-        rx = skip_copies(rx.get("e"))
+    for _ in range(6):
+        if rx.get("k") == "cast":
+            rx = skip_copies(rx.get("e"))
+        elif rx.get("k") == "call" and rx.get("inl_value") is not None and rx["inl_value"] in pr.nodes:
+            rx = skip_copies(pr.nodes[rx["inl_value"]])       # a spliced helper (wildcardToRegExp(text)): the expression it returns
+        elif rx.get("k") == "construct" and rx.get("class") == "QRegularExpression" and len([a for a in rx.get("args", []) if a.get("k") != "defaultarg"]) == 1 and \
+                skip_copies(rx["args"][0]).get("k") in ("call", "construct") and (skip_copies(rx["args"][0]).get("inl_value") is not None or skip_copies(rx["args"][0]).get("class") == "QRegularExpression"):
+            rx = skip_copies(rx["args"][0])                   # copy / move construction from that
+        else:
+            break
     ck.require(rx.get("k") == "construct" and rx.get("class") == "QRegularExpression", "Rule::category is not assigned a QRegularExpression")
     leaves = concat_leaves(rx["args"][0])
     strs = [const_str(x) for x in leaves]
